@@ -59,12 +59,15 @@ func (c13Chain) GenesisDomain(_ context.Context, _ phase0.DomainType) (phase0.Do
 	return phase0.Domain{}, nil
 }
 
-// c13New builds the account manager through its constructor, with the given
-// account specifiers and passphrases. The accounts themselves (state that has
-// no option) are put in place by the caller.
-func c13New(vm validatorsmanager.Service, ct *vstub.ChainTime, paths []string, pass [][]byte, label string) *Service {
+// c13New builds the account manager through its constructor, without account
+// specifiers: the accounts themselves (state that has no option) are put in
+// place by the caller. For every specifier the constructor's first refresh
+// would open the named wallet from the store on disk (os.ReadDir), which the
+// engine cannot execute; VerifC13_Specifiers, which needs specifiers, therefore
+// keeps building the service from its fields.
+func c13New(vm validatorsmanager.Service, ct *vstub.ChainTime, label string) *Service {
 	s, err := New(context.Background(), WithLogLevel(zerolog.Disabled), WithMonitor(&nullmetrics.Service{}),
-		WithProcessConcurrency(2), WithLocations([]string{"/nonexistent/wallets"}), WithAccountPaths(paths), WithPassphrases(pass),
+		WithProcessConcurrency(2), WithLocations([]string{"/nonexistent/wallets"}), WithAccountPaths([]string{}), WithPassphrases([][]byte{[]byte("secret")}),
 		WithValidatorsManager(vm), WithSpecProvider(c13Chain{}), WithFarFutureEpochProvider(c13Chain{}),
 		WithDomainProvider(c13Chain{}), WithCurrentEpochProvider(ct))
 	vnd.Assert(err == nil && s != nil, label)
@@ -95,7 +98,7 @@ func VerifC13_State() {
 	n := vnd.IntRange("accounts", 1, 2)
 	vm := &c13Validators{recs: map[phase0.BLSPubKey]*phase0.Validator{}, idx: map[phase0.BLSPubKey]phase0.ValidatorIndex{}}
 	ct := vstub.NewChainTime(0)
-	s := c13New(vm, ct, []string{}, [][]byte{[]byte("secret")}, "C13.new.accepted")
+	s := c13New(vm, ct, "C13.new.accepted")
 	epoch := phase0.Epoch(vnd.U64("epoch"))
 	vnd.Assume(epoch < 1<<40) // epochs come from the wall clock
 	keys := make([]phase0.BLSPubKey, n)
@@ -172,7 +175,7 @@ func VerifC13_State() {
 func VerifC17_RefreshVsLookup() {
 	vm := &c13Validators{recs: map[phase0.BLSPubKey]*phase0.Validator{}, idx: map[phase0.BLSPubKey]phase0.ValidatorIndex{}}
 	ct := vstub.NewChainTime(0)
-	s := &Service{accounts: map[phase0.BLSPubKey]e2wtypes.Account{}, validatorsManager: vm, farFutureEpoch: c13FarFuture, currentEpochProvider: ct}
+	s := c13New(vm, ct, "C17.new.accepted")
 	key := phase0.BLSPubKey{1}
 	s.accounts[key] = &vstub.Account{Tag: 1, Nm: "acc"}
 	vm.recs[key] = &phase0.Validator{PublicKey: key, ActivationEpoch: 0, ExitEpoch: c13FarFuture, WithdrawableEpoch: c13FarFuture}
